@@ -207,52 +207,144 @@ def sign_of(e, step, pos):
     return None
 
 
+def _default_of(gi, name):
+    """default expression assigned to `name` when the slice component is absent: `if name is None: name = E`,
+    `name = E if <comp> is None else <comp>`, `name = <comp> or E` (C13.5 rejects the last form separately)."""
+    for n in ast.walk(gi.node):
+        if isinstance(n, ast.If) and isinstance(n.test, ast.Compare) and len(n.test.ops) == 1 and \
+                isinstance(n.test.ops[0], ast.Is) and U(n.test.comparators[0]) == 'None' and U(n.test.left) == name:
+            for st in n.body:
+                if isinstance(st, ast.Assign) and U(st.targets[0]) == name:
+                    return st, st.value
+        if isinstance(n, ast.Assign) and U(n.targets[0]) == name and isinstance(n.value, ast.IfExp) and \
+                isinstance(n.value.test, ast.Compare) and 'None' in U(n.value.test):
+            isnone = isinstance(n.value.test.ops[0], ast.Is)
+            return n, (n.value.body if isnone else n.value.orelse)
+        if isinstance(n, ast.Assign) and U(n.targets[0]) == name and isinstance(n.value, ast.BoolOp) and \
+                isinstance(n.value.op, ast.Or):
+            return n, n.value.values[-1]
+    return None, None
+
+
+def _extreme(e, inc, gi, depth=0):
+    """abstract value of a default bound: (which, offset) with which in min / max / first / last; None = not understood.
+    `inc` is the truth of "the slice runs towards larger line numbers"."""
+    while isinstance(e, ast.Call) and U(e.func) == 'int' and e.args:
+        e = e.args[0]
+    if depth > 4:
+        return None
+    if isinstance(e, ast.IfExp):
+        t = _dir_truth(e.test, inc, gi)
+        if t is None:
+            return None
+        return _extreme(e.body if t else e.orelse, inc, gi, depth + 1)
+    if isinstance(e, ast.BinOp) and isinstance(e.op, (ast.Add, ast.Sub)):
+        l = _extreme(e.left, inc, gi, depth + 1)
+        off = _offset(e.right, inc, gi)
+        if l is not None and off is not None:
+            return (l[0], l[1] + (off if isinstance(e.op, ast.Add) else -off))
+        return None
+    if isinstance(e, ast.Call) and U(e.func).split('.')[-1] in ('min', 'max', 'amin', 'amax') and e.args and 'keys_object' in U(e.args[0]):
+        return ('min' if 'min' in U(e.func) else 'max', 0)
+    if isinstance(e, ast.Call) and isinstance(e.func, ast.Attribute) and e.func.attr in ('min', 'max') and 'keys_object' in U(e.func.value):
+        return (e.func.attr, 0)
+    if isinstance(e, ast.Subscript) and 'keys_object' in U(e.value):
+        if U(e.slice) == '0':
+            return ('first', 0)
+        if U(e.slice) == '-1':
+            return ('last', 0)
+    return None
+
+
+def _offset(e, inc, gi):
+    if isinstance(e, ast.Constant) and isinstance(e.value, int):
+        return e.value
+    if isinstance(e, ast.UnaryOp) and isinstance(e.op, ast.USub) and isinstance(e.operand, ast.Constant):
+        return -e.operand.value
+    if isinstance(e, ast.IfExp):
+        t = _dir_truth(e.test, inc, gi)
+        return None if t is None else _offset(e.body if t else e.orelse, inc, gi)
+    return None
+
+
+def _dir_truth(t, inc, gi):
+    """truth of a direction test when the slice runs upwards (inc) / downwards: `increasing`, `step > 0`, `step < 0`,
+    `step is None or step > 0`; a local flag is expanded once."""
+    if isinstance(t, ast.Name):
+        ds = [a for a in ast.walk(gi.node) if isinstance(a, ast.Assign) and U(a.targets[0]) == t.id]
+        if len(ds) == 1 and t.id != 'step':
+            return _dir_truth(ds[0].value, inc, gi)
+        return None
+    if isinstance(t, ast.UnaryOp) and isinstance(t.op, ast.Not):
+        v = _dir_truth(t.operand, inc, gi)
+        return None if v is None else not v
+    if isinstance(t, ast.BoolOp):
+        vs = [_dir_truth(v, inc, gi) for v in t.values]
+        if isinstance(t.op, ast.Or):
+            return True if any(v is True for v in vs) else (None if any(v is None for v in vs) else False)
+        return False if any(v is False for v in vs) else (None if any(v is None for v in vs) else True)
+    if isinstance(t, ast.Compare) and len(t.ops) == 1 and U(t.left).endswith('step'):
+        r, op = U(t.comparators[0]), t.ops[0]
+        if r == 'None' and isinstance(op, ast.Is):
+            return None if inc else False       # an absent step runs upwards; a downward slice has a step
+        if r == '0':
+            if isinstance(op, (ast.Gt, ast.GtE)):
+                return inc
+            if isinstance(op, (ast.Lt, ast.LtE)):
+                return not inc
+    return None
+
+
 def slices(ctx):
+    """C13.2 - open-ended line slices follow segyio (segyio.line.sanitize_slice): an absent or positive step runs
+    towards larger line numbers - default start min(keys), default stop max(keys) + 1 - a negative step the other way
+    - default start max(keys), default stop min(keys) - 1; the default step is positive whichever way the axis is
+    stored.  First / last keys are the extremes only on an ascending axis."""
     P = ctx.P
     n = 0
     for c in [P.cls('accessors.Accessor')] + P.cls('accessors.Accessor').all_subclasses():
         gi = c.methods.get('__getitem__')
-        if gi is None:
+        if gi is None or 'keys_object' not in U(gi.node):
             continue
-        # default step from adjacent keys?
-        steps = [a for a in ast.walk(gi.node) if isinstance(a, ast.Assign) and U(a.targets[0]) == 'step' and
-                 'keys_object[1]' in U(a.value) and 'keys_object[0]' in U(a.value)]
-        if not steps:
-            continue
-        stops = [a for a in ast.walk(gi.node) if isinstance(a, ast.Assign) and U(a.targets[0]) == 'stop' and
-                 'keys_object[-1]' in U(a.value)]
-        if not stops:
-            ctx.fail('C13.2', gi, gi.name, 'no default stop derived from the last key')
-            continue
-        for a in stops:
-            n += 1
-            v = a.value
-            # `given or default` / `default if given is None else given`: the default is the part built on the last key
-            if isinstance(v, ast.BoolOp):
-                v = [x for x in v.values if 'keys_object[-1]' in U(x)][0]
-            if isinstance(v, ast.IfExp):
-                v = v.body if 'keys_object[-1]' in U(v.body) else v.orelse
-            while isinstance(v, ast.Call) and U(v.func) == 'int' and v.args:
-                v = v.args[0]
-            off = None
-            if isinstance(v, ast.BinOp) and isinstance(v.op, ast.Add):
-                l, r = v.left, v.right
-                lk = 'keys_object[-1]' in U(l)
-                off = r if lk else l
-            if off is None:
-                raise AnalysisError('%s: default stop `%s` follows no recognised idiom (<last key> + <offset>)' % (
-                    gi.qualname, U(a.value)[:60]))
-            sp, sn = sign_of(off, 'step', True), sign_of(off, 'step', False)
-            # the step must be defined before the stop on every path
-            if sp == 1 and sn == -1:
-                order_ok = steps[0].lineno < a.lineno
-                if order_ok:
-                    ctx.ok('C13.2', gi, a, 'offset `%s` is positive for an ascending and negative for a descending axis' % U(off))
-                else:
-                    ctx.fail('C13.2', gi, a, 'the default stop uses step before the default step is assigned')
+        st_step, d_step = _default_of(gi, 'step')
+        st_start, d_start = _default_of(gi, 'start')
+        st_stop, d_stop = _default_of(gi, 'stop')
+        if d_step is None or d_start is None or d_stop is None:
+            raise AnalysisError('%s: defaults of an open-ended line slice were not recognised' % gi.qualname)
+        n += 1
+        # default step: positive for both storage orders
+        v = d_step
+        while isinstance(v, ast.Call) and U(v.func) == 'int' and v.args:
+            v = v.args[0]
+        if isinstance(v, ast.Call) and U(v.func).split('.')[-1] in ('abs', 'absolute', 'fabs'):
+            ctx.ok('C13.2', gi, st_step, 'default step is |line increment| (positive for ascending and descending axes)')
+        elif isinstance(v, ast.Constant) and isinstance(v.value, int) and v.value > 0:
+            ctx.ok('C13.2', gi, st_step, 'default step is a positive constant')
+        elif isinstance(v, ast.BinOp) and isinstance(v.op, ast.Sub) and 'keys_object[1]' in U(v.left) and 'keys_object[0]' in U(v.right):
+            ctx.fail('C13.2', gi, st_step, 'the default step is keys[1] - keys[0], negative on a descending axis: f.iline[:] and '
+                     'iteration then run against segyio\'s order (ascending line numbers) and f.iline[a:b] with a < b is empty')
+        else:
+            raise AnalysisError('%s: default step `%s` follows no recognised idiom' % (gi.qualname, U(d_step)[:50]))
+        for what, st, d, want in (('start', st_start, d_start, {True: ('min', 0), False: ('max', 0)}),
+                                  ('stop', st_stop, d_stop, {True: ('max', 1), False: ('min', -1)})):
+            bad = None
+            for inc in (True, False):
+                got = _extreme(d, inc, gi)
+                if got is None:
+                    raise AnalysisError('%s: default %s `%s` follows no recognised idiom' % (gi.qualname, what, U(d)[:60]))
+                if got != want[inc]:
+                    bad = (inc, got)
+                    break
+            if bad:
+                inc, got = bad
+                names = {'first': 'the first key', 'last': 'the last key', 'min': 'min(keys)', 'max': 'max(keys)'}
+                ctx.fail('C13.2', gi, st, 'default %s of a slice running %s is %s%+d; segyio uses %s%+d%s' % (
+                    what, 'upwards (step absent or positive)' if inc else 'downwards (negative step)',
+                    names[got[0]], got[1], names[want[inc][0]], want[inc][1],
+                    ': the first / last key is the extreme only on an ascending axis' if got[0] in ('first', 'last') else ''),
+                    key_extra=what)
             else:
-                ctx.fail('C13.2', gi, a, 'default stop = last key + `%s`: with the default step keys[1] - keys[0] of a descending axis '
-                         '(negative) the range(start, stop, step) is empty or short - f.iline[:] loses lines' % U(off))
+                ctx.ok('C13.2', gi, st, 'default %s = min/max of the keys in the direction of travel, as segyio' % what)
     if n < 1:
         raise AnalysisError('no open-ended line-slice default found in the accessors')
 
